@@ -22,13 +22,14 @@ CONSTANTS
   MaxIn = %(maxIn)d
   MaxOut = %(maxOut)d
   MaxEp = %(maxEp)d
+  MaxStash = %(maxStash)d
 VIEW View
 %(props)s
 CHECK_DEADLOCK FALSE
 '''
 
 DEFAULTS = dict(role='acc', bs=42, chunk=0, persist=True, resetOnLogon=False, resetOnLogout=False,
-                resetOnDisconnect=False, checkLatency=True, hbOverride=False, maxIn=6, maxOut=3, maxEp=2)
+                resetOnDisconnect=False, checkLatency=True, hbOverride=False, maxIn=6, maxOut=3, maxEp=2, maxStash=2)
 
 
 def tla_bool(b):
